@@ -68,6 +68,89 @@ UNOPS = ("mul_two", "div_two", "is_zero", "is_one", "set_one", "to_big", "displa
          "rt_big", "rt_codec", "rt_bfes")
 
 
+def mul_ripples(a, b, n):
+    """simulate the schoolbook loop of `impl Mul for U32s<N>` on limb lists and report how far the carry of the low-half and
+    of the high-half addition ripples (number of iterations of the two `while add_carry` loops); None if it overflows"""
+    res = [0] * n
+    deep_lo = deep_hi = 0
+    for i in range(n):
+        for j in range(n):
+            hl = a[i] * b[j]
+            hi, lo = hl >> 32, hl & M32
+            if not (i + j < n or hl == 0):
+                return None
+            if hl == 0:
+                continue
+            t = res[i + j] + lo
+            res[i + j] = t & M32
+            c, k = t >> 32, 1
+            while c:
+                if i + j + k >= n:
+                    return None
+                t = res[i + j + k] + 1
+                res[i + j + k] = t & M32
+                c = t >> 32
+                k += 1
+            deep_lo = max(deep_lo, k - 1)
+            if hi == 0:
+                continue
+            if i + j + 1 >= n:
+                return None
+            t = res[i + j + 1] + hi
+            res[i + j + 1] = t & M32
+            c, k = t >> 32, 2
+            while c:
+                if i + j + k >= n:
+                    return None
+                t = res[i + j + k] + 1
+                res[i + j + k] = t & M32
+                c = t >> 32
+                k += 1
+            deep_hi = max(deep_hi, k - 2)
+    return deep_lo, deep_hi
+
+
+def deep_ripple_pairs(rng, n, want, tries):
+    """search (structured random limbs) for operand pairs whose product makes a carry ripple through >= 2 limbs in the
+    low-half or in the high-half carry loop: the accumulator limb must be exactly 2^32-1 at that moment (2^-32 for random
+    operands), so this class is constructed, not sampled"""
+    found = []
+    pool = (0, 1, 2, 3, M32, M32 - 1, M32 - 2, 2**31, 2**31 - 1, 2**31 + 1, 2**16, 2**16 - 1, 2**16 + 1, 0x55555555, 0xAAAAAAAA)
+    for _ in range(tries):
+        la = rng.randrange(1, n)
+        lb = rng.randrange(1, n + 1 - la) if n + 1 - la > 1 else 1
+        a = [rng.choice(pool) if rng.random() < 0.85 else rng.randrange(2**32) for _ in range(la)] + [0] * (n - la)
+        b = [rng.choice(pool) if rng.random() < 0.85 else rng.randrange(2**32) for _ in range(lb)] + [0] * (n - lb)
+        r = mul_ripples(a, b, n)
+        if r is not None and (r[0] >= 2 or r[1] >= 2):
+            found.append((a, b, r))
+            if len(found) >= want:
+                break
+    return found
+
+
+def construct_hi_ripple(rng, n, L, tries=400):
+    """operands for which the HIGH-half addition of a later row overflows exactly when accumulator limb L is 2^32-1:
+    row 0 is steered to leave limb L at 2^32-1 (B = T // a0 with T = (2^32-1) * 2^(32 L) + random low part), row 1 then
+    adds a1 * b0 whose high half carries out of limb L-1; kept only if the simulation confirms a ripple of >= 2 limbs"""
+    out = []
+    for _ in range(tries):
+        a0 = rng.randrange(2**31, 2**32) | 1
+        T = (M32 << (32 * L)) + rng.randrange(2 ** (32 * L))
+        B = T // a0
+        a1 = rng.choice((a0 - 1, a0 // 2, rng.randrange(1, a0), M32 // 3))
+        a = [a0, a1] + [0] * (n - 2)
+        b = limbs_of(B, n)
+        if len(b) != n:
+            continue
+        r = mul_ripples(a, b, n)
+        if r is not None and r[1] >= 2:
+            out.append((a, b))
+            if len(out) >= 12:
+                break
+    return out
+
+
 def cases(tier, rng):
     out = []
     big = tier == "thorough"
@@ -133,6 +216,15 @@ def cases(tier, rng):
                         add("carry-chain", case1(op, n, limbs_of(a, n)))
                         add("carry-chain", case1(op, n, limbs_of(a >> 1, n)))
 
+    # -- 2b. multiplications whose carries ripple through two or more limbs (constructed by simulating the loop)
+    for n in range(3, NMAX + 1):
+        for (a, b, r) in deep_ripple_pairs(rng, n, 120 if big else 40, 200000):
+            add("mul-deep-ripple", case2("mul", n, a, b))
+    for n in range(4, NMAX + 1):
+        for L in range(2, n):
+            for (a, b) in construct_hi_ripple(rng, n, L):
+                add("mul-deep-ripple-hi", case2("mul", n, a, b))
+                add("mul-deep-ripple-hi", case2("mul", n, b, a))
     # -- 3. exact overflow boundaries
     for n in range(1, NMAX + 1):
         top = 2 ** (32 * n)
